@@ -135,6 +135,29 @@ def null_of(name: str) -> z3.ExprRef:
     return _NULLS[name]
 
 
+_KEY_SORTS: dict = {}
+
+
+def key_sort(k: Ty):
+    """z3 sort of a map key: the scalar sort, or a tuple datatype for tuple keys"""
+    fs = flat_sorts(k)
+    if len(fs) == 1:
+        return fs[0]
+    sig = tuple(str(s) for s in fs)
+    if sig not in _KEY_SORTS:
+        _KEY_SORTS[sig] = z3.TupleSort("KeyTup_" + "_".join(x.replace(" ", "") for x in sig), fs)
+    return _KEY_SORTS[sig][0]
+
+
+def key_term(k: Ty, terms: list):
+    fs = flat_sorts(k)
+    if len(fs) == 1:
+        return terms[0]
+    sig = tuple(str(s) for s in fs)
+    key_sort(k)
+    return _KEY_SORTS[sig][1](*terms)
+
+
 def flat_sorts(t: Ty) -> list:
     """z3 sorts of the flattened components of a value of type t."""
     if isinstance(t, (_Int, Enum)):
@@ -167,9 +190,8 @@ def flat_sorts(t: Ty) -> list:
         assert len(fs) == 1, "sets of scalars only"
         return [z3.ArraySort(fs[0], z3.BoolSort())]
     if isinstance(t, MapT):
-        ks = flat_sorts(t.k)
-        assert len(ks) == 1, "maps with scalar keys only"
-        return [z3.ArraySort(ks[0], z3.BoolSort())] + [z3.ArraySort(ks[0], s) for s in flat_sorts(t.v)]
+        ks = key_sort(t.k)
+        return [z3.ArraySort(ks, z3.BoolSort())] + [z3.ArraySort(ks, s) for s in flat_sorts(t.v)]
     raise TypeError(f"cannot flatten {t}")
 
 
